@@ -16,6 +16,7 @@ CFG = {
         "Swat4.C12.ghost_faithful",
         "Swat4.C12.ghost_popped",
         "Swat4.C12.batch_is_log",
+        "Swat4.C12.init_of_calls",
         "Swat4.C12.ids_fresh",
         "Swat4.C12.enqueue_uses_fresh",
         "Swat4.C12.conservation",
